@@ -26,6 +26,7 @@ structure St where
 def parseNode (tok : String) : Option NodeInfo :=
   match tok.splitOn ":" with
   | ["r"] => some { kind := .root, name := "", parent := 0 }
+  | ["f"] => some { kind := .root, name := "", parent := 0 }      -- a document fragment root (result tree fragment)
   | [k, nm, p] =>
     match p.toNat? with
     | none => none
@@ -123,7 +124,7 @@ def step (s : St) : List String → St × String
   | "doc" :: _hex :: n :: toks =>
     match n.toNat?, toks.mapM parseNode with
     | some n, some nodes =>
-      let d : Doc := { nodes := nodes }
+      let d : Doc := { nodes := nodes, rootKind := if toks.head? == some "f" then .fragment else .document }
       if n = nodes.length ∧ d.WF then
         ({ s with doc := some d }, s!"doc {n}" ++ String.join (nodes.map fun ni => " " ++ showNode ni))
       else ({ s with doc := none }, "doc ERR:wf")
